@@ -80,6 +80,19 @@ def srepr(x, n=200):
         return f"<repr() raised {type(e).__name__}: {e}>"[:n]
 
 
+def site_of(exc):
+    """Innermost frame inside the pane tree that an exception passed through: 'file.py:qualname' (root-cause signature)."""
+    tb = getattr(exc, '__traceback__', None)
+    site = None
+    while tb is not None:
+        code = tb.tb_frame.f_code
+        fn = code.co_filename
+        if fn.startswith(PANE_SRC + os.sep):
+            site = f"{os.path.basename(fn)}:{getattr(code, 'co_qualname', code.co_name)}"
+        tb = tb.tb_next
+    return site or 'outside-pane'
+
+
 def sig_key(sig):
     return json.dumps(sig, sort_keys=True, default=str)
 
